@@ -7,7 +7,7 @@
                            C04-move-container-duplicates-paths): /B of model 1 already has the sub-package /B/S *)
 From AV Require Import Base.Bytes Base.Outcome Hash.HashModel Tree.Heap Tree.Ops Tree.Script Tree.Inv Tree.InvProofs.
 From AV Require Import Tree.Index Tree.IndexProofsBase Tree.Refs Tree.IndexProofsBridge Tree.IndexProofsTiny Tree.IndexProofsClosed
-  Tree.IndexProofsTinyMove Tree.RefsAll Tree.IndexProofsNodeInv Tree.IndexProofsAll.
+  Tree.IndexProofsTinyMove Tree.RefsAll Tree.IndexProofsNodeInv Tree.IndexProofsAll Tree.Copy Tree.IndexProofsDup.
 Import Tiny.
 Open Scope string_scope.
 Open Scope list_scope.
@@ -84,3 +84,38 @@ Proof.
   { split; [eapply specpath_mreach; exact HS|]. split; [vm_compute; reflexivity|exact HS]. }
   apply HE in HP. vm_compute in HP. discriminate HP.
 Qed.
+
+(* ---------- copies under the classes of the statement for all constructors: copy_demo (Tree/IndexProofsTinyMove.v) is clean, the
+   witness of the finding C04-copy-container-duplicates-paths is in the class (now through the collision test of copy_clean_b) *)
+Example copy_demo_all : script_oka copy_demo = true.
+Proof. vm_compute. reflexivity. Qed.
+Example copy_container_in_class :
+  Known04a tiny LATEST (wof cc_pre) cc_op = false /\ Known05a tiny tiny_el tiny_en tiny_check_fn LATEST [] (wof cc_pre) cc_op = true.
+Proof. vm_compute. split; reflexivity. Qed.
+
+(* ---------- AutosarModel::duplicate of the demo model: the copy (model 1) has its own exact index and referrer map *)
+Lemma script_K s : script_oka s = true ->
+  K tiny tiny_check_fn (wof s).
+Proof.
+  unfold script_oka, wof. intros H. apply andb_true_iff in H as (Hc & Hv).
+  destruct (run_script s empty_world) as [w'| |] eqn:E; try discriminate.
+  eapply (C04_C05_history_all_K tiny tiny_el tiny_en tiny_check_fn LATEST [] tiny_tables_ok tiny_root_plain s w' Hc).
+  rewrite <- run_script_run_ops. exact E.
+Qed.
+Example dup_demo_summary :
+  dup_clean tiny tiny_el tiny_en tiny_check_fn LATEST [] (wof demo) 0 = true /\
+  exists w', m_duplicate tiny tiny_el tiny_en tiny_check_fn LATEST [] 0 (wof demo) = Val (OK 1, w') /\
+    (Inv04 tiny tiny_check_fn w' /\ Inv05 tiny w') /\
+    idents_of w' 0 = [(BS "/A", 2); (BS "/A/S", 5); (BS "/B", 8)] /\
+    idents_of w' 1 = [(BS "/A", 12); (BS "/A/S", 15); (BS "/B", 18)] /\ origins_list w' 1 = [(BS "/B", [17])].
+Proof.
+  assert (Hc : dup_clean tiny tiny_el tiny_en tiny_check_fn LATEST [] (wof demo) 0 = true) by (vm_compute; reflexivity).
+  split; [exact Hc|].
+  destruct (m_duplicate tiny tiny_el tiny_en tiny_check_fn LATEST [] 0 (wof demo)) as [[[c|e] w']| |] eqn:E; try (vm_compute in E; discriminate E).
+  assert (Hc1 : c = 1) by (vm_compute in E; injection E as E _; symmetry; exact E). subst c.
+  exists w'. split; [reflexivity|].
+  destruct (C45_duplicate tiny tiny_el tiny_en tiny_check_fn LATEST [] tiny_tables_ok tiny_root_plain 0 (wof demo) (OK 1) w'
+              (script_K demo ltac:(vm_compute; reflexivity)) Hc E) as (A & B & _).
+  split; [split; assumption|]. vm_compute in E. injection E as <-. vm_compute. repeat split; reflexivity.
+Qed.
+
